@@ -353,8 +353,8 @@ Section RunFacts.
         - intros i w1 s1 _ [Hx Gx].
           apply (foreach_inv _ (fun x => sbc x s /\ good x)).
           + intros j w2 s2 _ [Hy Gy]. rewrite with_block_st. cbn [blk_enter blk_exit].
-            assert (Gm : good (upd_mask j s2)) by exact Gy.
-            pose proof (IH w2 (upd_mask j s2) Gm) as R.
+            assert (Gm : good (upd_mask (mask_merge e j (maskv s2)) s2)) by exact Gy.
+            pose proof (IH w2 (upd_mask (mask_merge e j (maskv s2)) s2) Gm) as R.
             destruct R as [[A1 [A2 [A3 [A4 A5]]]] _]. cbn in A1, A2, A3, A4, A5.
             destruct Hy as [B1 [B2 [B3 B4]]]. unfold sbc, good. cbn.
             rewrite A1, A4, A5. destruct Gy as [Gy1 Gy2]. repeat split; auto.
@@ -399,7 +399,7 @@ Section RunFacts.
 End RunFacts.
 
 (* ------------------------------------------------------------------ example data *)
-Definition ex_env : env := mkEnv 3 [(0, [0]); (1, [1]); (2, [2])] [(0, [[]]); (1, [[(3, (0, 1))]]); (2, [[]])].
+Definition ex_env : env := mkEnv 3 [(0, [0]); (1, [1]); (2, [2])] [(0, [[]]); (1, [[(3, (0, 1))]]); (2, [[]])] [].
 Definition ex_state : state :=
   mkState [(0, (1, 2)); (1, (3, 5)); (3, (1, 1))] [] [0; 1; 2] false [false; false] [(0, (0, 1))].
 Definition never (n : nat) (s : state) := false.
@@ -482,6 +482,27 @@ Lemma old_amp_temp_params_under_mask_leaks :
   vars (st_of (snd (with_block (blk_enter ex_env (BMaskParams [(0, (3, 4))])) (blk_exit ex_env (BMaskParams [(0, (3, 4))]))
                       (old_amp_temp_params [(1, (5, 8))] return_now) (O, []) ex_state)))
   = [(0, (3, 4)); (1, (3, 5)); (3, (1, 1))].
+Proof. vm_compute. reflexivity. Qed.
+
+(* nested masks merge (inner values win, new names are appended, the order of the outer mask is kept);
+   a name tied to others masks them all; the exit puts the outer mask back *)
+Lemma mask_merge_example :
+  mask_merge ex_env [(1, (5, 8)); (0, (7, 8))] [(0, (3, 4)); (3, (1, 2))] = [(0, (7, 8)); (3, (1, 2)); (1, (5, 8))].
+Proof. vm_compute. reflexivity. Qed.
+Lemma mask_merge_tied_example :
+  mask_merge (mkEnv 3 [] [] [(1, [1; 3]); (3, [1; 3])]) [(3, (5, 8))] [(0, (3, 4))] = [(0, (3, 4)); (3, (5, 8)); (1, (5, 8))].
+Proof. vm_compute. reflexivity. Qed.
+Lemma nested_mask_example :
+  let p := PWith (BMaskParams [(0, (3, 4))]) (PSeq PEval (PSeq (PWith (BMaskParams [(1, (5, 8))]) PEval) PEval)) in
+  map maskv (rev (snd (fst (run ex_env never p (O, []) ex_state)))) = [[(0, (3, 4))]; [(0, (3, 4)); (1, (5, 8))]; [(0, (3, 4))]]
+  /\ st_of (snd (run ex_env never p (O, []) ex_state)) = ex_state.
+Proof. vm_compute. split; reflexivity. Qed.
+(* before the C16 repair the inner block saw only its own dictionary *)
+Lemma old_nested_mask_replaced :
+  map maskv (rev (snd (fst (with_block (old_mask_enter [(0, (3, 4))]) (blk_exit ex_env (BMaskParams []))
+                              (with_block (old_mask_enter [(1, (5, 8))]) (blk_exit ex_env (BMaskParams [])) (tick never))
+                              (O, []) ex_state))))
+  = [[(1, (5, 8))]].
 Proof. vm_compute. reflexivity. Qed.
 
 (* ------------------------------------------------------------------ packaged forms *)
